@@ -42,7 +42,18 @@ Holds(name, ww, e) ==
             \A n \in 0..(Len(polys) - 1) :
                (polys[n + 1] # <<>> /\ ~Degenerate(RawPoly(ww, n))) => IsPartition(DedupRing(polys[n + 1]), TrisOf(o, n))
 
-Failing(ww, e) == {name \in Names : ~Holds(name, ww, e)}
+\* Meshes off the lattice (FreeTriangulate) are judged structurally: every triangle corner is a vertex index, every triangle
+\* belongs to a face, and a face with s sides is covered by exactly s - 2 triangles
+FreeStructure(e) ==
+  LET o == e.obs.ok IN
+  /\ Len(o.cells) = Len(o.triangles)
+  /\ \A k \in 1..Len(o.triangles) : \A m \in 1..3 : o.triangles[k][m] >= 0 /\ o.triangles[k][m] < o.nv
+  /\ \A k \in 1..Len(o.cells) : o.cells[k] >= 0 /\ o.cells[k] < Len(polys)
+  /\ \A n \in 1..Len(polys) : polys[n] # <<>> => Cardinality({k \in 1..Len(o.cells) : o.cells[k] = n - 1}) = Len(polys[n]) - 2
+Failing(ww, e) ==
+  IF e.a = "FreeTriangulate"
+  THEN (IF ~Ok(e) THEN {"Completed"} ELSE {}) \cup (IF Ok(e) /\ ~FreeStructure(e) THEN {"FreeStructure"} ELSE {})
+  ELSE {name \in Names : ~Holds(name, ww, e)}
 SeenOf(ww, e) == {e.a, ww.conv}
   \cup (IF \E n \in 1..Len(polys) : polys[n] = <<>> THEN {"holes"} ELSE {})
   \cup (IF \E n \in 1..Len(polys) : polys[n] # <<>> /\ ~IsConvex(polys[n]) THEN {"concave"} ELSE {})
